@@ -34,7 +34,10 @@ REQS = [
     b"titan://example.org/f.txt;size=11;mime=text/plain\r\nhello world",
     "gemini://example.org/caf\u00e9/\u65e5\u672c?q=\u00fc\r\n".encode("utf-8"),          # stalls inside multi-byte characters
     b"titan://example.org/b.bin;size=9;mime=application/octet-stream\r\n\xff\xfe\x00\x80\xc3\x28\xa0\xa1\xf5",  # binary body
+    b"titan://example.org/big.bin;size=10485760;mime=application/octet-stream\r\nonly the beginning of a large upload",
+    b"titan://example.org/huge.bin;size=1099511627776\r\n",
 ]
+NEVER_COMPLETE = {6, 7}  # the announced size is never reached: every offset is a stall
 HORIZON = 3600.0
 
 
@@ -50,7 +53,7 @@ def enum_offsets(tier):
         for k in range(len(r) + 1):
             for delivery in ("one", "bytes"):
                 for slow in (False, True):
-                    if slow and k != len(r):
+                    if slow and (k != len(r) or ri in NEVER_COMPLETE):
                         continue
                     yield {"req": ri, "k": k, "delivery": delivery, "slow_handler": slow}
 
@@ -61,7 +64,7 @@ def run_offsets(case: dict):
 
     data = REQS[case["req"]]
     prefix = data[: case["k"]]
-    complete = case["k"] == len(data)
+    complete = case["k"] == len(data) and case["req"] not in NEVER_COMPLETE
 
     async def scenario(loop):
         sim = srvsim.Sim(loop)
@@ -116,7 +119,7 @@ TIMES = [0.0, 0.1, 29.8, 29.9, 30.0, 30.1, 30.2, 60.0]
 
 @st.composite
 def ordering_case(draw):
-    ri = draw(st.integers(0, len(REQS) - 1))
+    ri = draw(st.integers(0, 5))
     data = REQS[ri]
     k = draw(st.integers(0, len(data) - 1))
     return {
@@ -278,12 +281,18 @@ def enum_tls(tier):
                 if 0 <= k <= full:
                     yield {"backend": backend, "tls": vn, "k": k, "slow": False}
             yield {"backend": backend, "tls": vn, "k": full, "slow": True}
+    # a client certificate that the TLS library accepts and the X.509 parser rejects (PyOpenSSL path asks for certificates)
+    for vn in VERS:
+        for ccert in ("hostile-v4", "hostile-bool"):
+            for send in (True, False):
+                yield {"backend": "pyopenssl", "tls": vn, "k": 10**9, "slow": False, "ccert": ccert, "send_request": send}
 
 
 def run_tls(case: dict):
     setup_logging()
     backend, ver = case["backend"], VERS[case["tls"]]
-    hs_len, full = _session_lengths(backend, ver)
+    ccert = case.get("ccert")
+    hs_len, full = _session_lengths(backend, ver) if not ccert else (0, 10**9)
     k = case["k"]
 
     async def scenario(loop):
@@ -291,7 +300,9 @@ def run_tls(case: dict):
         handler = srvsim.build_handler(sim, {"kind": "async-value", "status": 20, "meta": "text/gemini", "body": "B",
                                              "gate": case["slow"]})
         factory, sslctx = stacks.manual_stack(backend, handler)
-        conn = memnet.ServerConn(loop, factory, sslctx, memnet.permissive_client_ctx(minv=ver, maxv=ver))
+        from vlib import certs as _certs
+
+        conn = memnet.ServerConn(loop, factory, sslctx, memnet.permissive_client_ctx(minv=ver, maxv=ver, cert=_certs.get(ccert) if ccert else None))
         sent = [0]
 
         def deliver(out):
@@ -305,7 +316,7 @@ def run_tls(case: dict):
         queued = False
         for _ in range(30):
             conn.client.step()
-            if conn.client.handshaken and not queued:
+            if conn.client.handshaken and not queued and case.get("send_request", True):
                 conn.client.to_send += REQS[0]
                 queued = True
                 conn.client.step()
@@ -329,6 +340,14 @@ def run_tls(case: dict):
     plain = bytes(conn.client.plain)
     closed_at = conn.tcp.close_t
     info = {"plain": b2s(plain[:40]), "closed_at": closed_at, "hs_len": hs_len, "full": full, "sent": sent}
+    if ccert:
+        # whatever the server makes of such a certificate, the then-silent peer must not stay connected for ever
+        if closed_at is None:
+            return viol("never-disconnected", f"{backend} TLS{case['tls']}: client certificate {ccert}, "
+                        f"{'request sent, ' if case.get('send_request', True) else ''}then silent; still open at {HORIZON}s", where="unparsable-client-cert", **info)
+        if closed_at > 91.0:
+            return viol("disconnected-late", f"closed at {closed_at}", **info)
+        return ok(**info)
     complete = k >= full
     if complete:
         if case["slow"] and at100:
